@@ -189,23 +189,30 @@ theorem sub_isAdjW {A B : Op K} (hA : IsAdjW ρ A) (hB : IsAdjW ρ B) (hi : A.ni
   rw [hA x y, ho, hi, hB x y]
 
 omit hρ in
-theorem smul_isAdjW {A : Op K} (hA : IsAdjW ρ A) {c : K} (hc : ScalOK ρ c) : IsAdjW ρ (Op.smul c A) := by
+/-- scalar multiples: NO condition on the scalar (the code applies `conj c` before the operand's adjoint, so the
+    scalar never has to be pulled out of the test functional) -/
+theorem smul_isAdjW {A : Op K} (hA : IsAdjW ρ A) (c : K) : IsAdjW ρ (Op.smul c A) := by
   intro x y
-  simp only [Op.smul, ip_smul_left, conj_eq_star, ip_smul_right, hc _]
-  rw [hA x y]
+  simp only [Op.smul, conj_eq_star]
+  rw [← hA x (vsmul (star c) y), ip_smul_left, ip_smul_right]
 
+omit hρ in
 theorem neg_isAdjW {A : Op K} (hA : IsAdjW ρ A) : IsAdjW ρ (Op.neg A) :=
-  smul_isAdjW hA hρ.scal_neg_one
+  smul_isAdjW hA (-1)
 
 omit hρ in
 theorem sdiv_eq_smul (c : K) (A : Op K) : Op.sdiv c A = Op.smul c⁻¹ A := by
+  have e : ∀ y : V K, vsdiv y (conj c) = vsmul (conj c⁻¹) y := by
+    intro y; funext i; simp [vsdiv, vsmul, conj_eq_star, star_inv₀, div_eq_inv_mul]
   unfold Op.sdiv Op.smul
-  congr 1 <;> (funext x i; simp [vsdiv, vsmul, conj_eq_star, star_inv₀, div_eq_inv_mul])
+  congr 1
+  · funext x i; simp [vsdiv, vsmul, div_eq_inv_mul]
+  · funext y; rw [e]
 
 omit hρ in
-theorem sdiv_isAdjW {A : Op K} (hA : IsAdjW ρ A) {c : K} (hc : ScalOK ρ c⁻¹) : IsAdjW ρ (Op.sdiv c A) := by
+theorem sdiv_isAdjW {A : Op K} (hA : IsAdjW ρ A) (c : K) : IsAdjW ρ (Op.sdiv c A) := by
   rw [sdiv_eq_smul]
-  exact smul_isAdjW hA hc
+  exact smul_isAdjW hA _
 
 omit hρ in
 theorem comp_isAdjW {A B : Op K} (hA : IsAdjW ρ A) (hB : IsAdjW ρ B) (h : A.nin = B.nout) :
